@@ -555,6 +555,55 @@ impl C04 {
         s
     }
 
+    /// Constraint definitions — plain, recursive (directly, through lists, tuples and
+    /// alternations, mutually) and ill-founded — applied to values nested 0..14 deep that
+    /// conform, or fail to conform near the bottom.
+    pub fn gen_constraints(&self, t: &mut Tape) -> String {
+        const NAMES: [&str; 3] = ["ca", "cb", "cc"];
+        let mut s = String::new();
+        let ndefs = 1 + t.choice(3);
+        for i in 0..ndefs {
+            let me = NAMES[i];
+            let narms = 1 + t.choice(3);
+            let mut arms: Vec<String> = vec![];
+            for _ in 0..narms {
+                let r = NAMES[t.choice(ndefs)];
+                arms.push(match t.weighted(&[3, 2, 2, 3, 3, 2, 2, 1, 1]) {
+                    0 => (*t.pick(&["1", "\"\"", "1.0", "true", "NULL", "[]", "{}"])).to_string(),
+                    1 => (*t.pick(&["in 1..10", "in 0..", "in ..5", "in 0.5..1.5", "in 5..1"])).to_string(),
+                    2 => r.to_string(),
+                    3 => format!("[{}]", r),
+                    4 => format!("{{v = 1, kids = [{}]}}", r),
+                    5 => format!("{{v = 1, next = {}}}", r),
+                    6 => format!("[{}, 1]", r),
+                    7 => format!("{{a = {}, b = {}}}", me, r),
+                    _ => format!("[[{}]]", me),
+                });
+            }
+            s.push_str(&format!("constraint {} = {};\n", me, arms.join(" | ")));
+        }
+        for i in 0..1 + t.choice(3) {
+            let c = NAMES[t.choice(ndefs)];
+            let depth = t.choice(15);
+            let leaf = *t.pick(&["1", "\"s\"", "[]", "{v = 1, kids = []}", "NULL", "2.5", "{v = \"wrong\", kids = []}"]);
+            let mut v = leaf.to_string();
+            for _ in 0..depth {
+                v = match t.choice(4) {
+                    0 => format!("[{}]", v),
+                    1 => format!("{{v = 1, kids = [{}]}}", v),
+                    2 => format!("{{v = 1, next = {}}}", v),
+                    _ => format!("[{}, 1]", v),
+                };
+            }
+            match t.choice(3) {
+                0 => s.push_str(&format!("let w{} :: {} = {};\n", i, c, v)),
+                1 => s.push_str(&format!("let f{} = func (p :: {}) => p;\nlet w{} = f{}({});\n", i, c, i, i, v)),
+                _ => s.push_str(&format!("let w{} = {{fld :: {} = {}}};\n", i, c, v)),
+            }
+        }
+        s
+    }
+
     pub fn gen_nesting(&self, t: &mut Tape, max_depth: usize) -> String {
         let d = 1 + t.choice(max_depth);
         let mut open = String::new();
@@ -583,7 +632,7 @@ impl Property for C04 {
         "C04"
     }
     fn rule(&self) -> String {
-        "enumerated: every .ucg file shipped in the repository and every file of fuzz/corpus, unmodified; generated: token soups over the full vocabulary with arbitrary Unicode characters, statement-shaped soups, 1-3 token mutations (delete/duplicate/swap/replace) of windows of those files, edge-arithmetic programs (zero divisors, i64 extremes, range limits, format placeholder/argument mismatches, casts and functional ops on wrong shapes), bracket nesting 1..64, valid generated programs with comments, newlines and CRLF between any two tokens; each input goes through tokenize, parse (with/without comments), type check, translate, format, evaluate (strict / non-strict), convert (8 converters) under catch_unwind in a supervised worker with a deterministic work bound; 1 in 40 also through the real binary (build, fmt, test). Non-trivial: the input parses and has >= 3 tokens; distinct by input text.".into()
+        "enumerated: every .ucg file shipped in the repository and every file of fuzz/corpus, unmodified; generated: token soups over the full vocabulary with arbitrary Unicode characters, statement-shaped soups, 1-3 token mutations (delete/duplicate/swap/replace) of windows of those files, edge-arithmetic programs (zero divisors, i64 extremes, range limits, format placeholder/argument mismatches, casts and functional ops on wrong shapes), bracket nesting 1..64, valid generated programs with comments, newlines and CRLF between any two tokens, constraint programs (plain, recursive, mutually recursive and ill-founded definitions applied to values nested up to 14 deep); each input goes through tokenize, parse (with/without comments), type check, translate, format, evaluate (strict / non-strict), convert (8 converters) under catch_unwind in a supervised worker with a deterministic work bound; 1 in 40 also through the real binary (build, fmt, test). Non-trivial: the input parses and has >= 3 tokens; distinct by input text.".into()
     }
     fn assumptions(&self) -> Vec<String> {
         vec![
@@ -637,8 +686,9 @@ impl Property for C04 {
     fn run_tape(&mut self, words: &[u32]) -> Outcome {
         let mut t = Tape::new(words);
         let max_nest = 64;
-        let (label, text) = match t.weighted(&[3, 3, 5, 5, 2, 3]) {
+        let (label, text) = match t.weighted(&[3, 3, 5, 5, 2, 3, 3]) {
             5 => ("commented-program", self.gen_commented(&mut t)),
+            6 => ("constraint-program", self.gen_constraints(&mut t)),
             0 => ("token-soup", self.gen_soup(&mut t)),
             1 => ("statement-soup", self.gen_statementish(&mut t)),
             2 => match self.gen_mutation(&mut t) {
